@@ -34,6 +34,11 @@ if "numba" not in sys.modules:
         _cur = 0
     if _cur < 16:
         os.environ["NUMBA_NUM_THREADS"] = "16"
+    # idle OpenMP workers must sleep, not spin: on a shared (oversubscribed) machine a spinning 16-thread team makes
+    # every tiny prange call take ~1 s.  This changes nothing about which thread executes which iteration.
+    os.environ.setdefault("OMP_WAIT_POLICY", "PASSIVE")
+    os.environ.setdefault("GOMP_SPINCOUNT", "0")
+    os.environ.setdefault("KMP_BLOCKTIME", "0")
 
 import numpy as np
 
@@ -76,6 +81,30 @@ class Real:
                     bad += 1
             return keys, cnt, bad
         self.dump_dict = dump_dict
+        dec, encf, fill = B._decode_multiindex, B._encode_multiindex, B._fill_exponents
+
+        @numba.njit(cache=False)
+        def roundtrip_all(d, clmo, enc):
+            """the REAL _decode_multiindex / _fill_exponents / _encode_multiindex on every slot of degree d"""
+            n = clmo[d].shape[0]
+            out = np.empty((n, 6), dtype=np.int64)
+            bad_enc = -1
+            bad_fill = -1
+            kv = np.empty(6, dtype=np.int64)
+            kf = np.empty(6, dtype=np.int64)
+            for i in range(n):
+                k = dec(i, d, clmo)
+                fill(i, d, clmo, kf)
+                for m in range(6):
+                    out[i, m] = k[m]
+                    kv[m] = k[m]
+                    if kf[m] != k[m] and bad_fill < 0:
+                        bad_fill = i
+                j = encf(kv, d, enc)
+                if j != i and bad_enc < 0:
+                    bad_enc = i
+            return out, bad_enc, bad_fill
+        self.roundtrip_all = roundtrip_all
 
     def threads(self):
         return list(range(1, min(16, self.max_threads) + 1))
@@ -83,7 +112,7 @@ class Real:
     def glist(self, blocks):
         out = self.NList()
         for b in blocks:
-            out.append(np.ascontiguousarray(b, dtype=np.complex128))
+            out.append(np.array(b, dtype=np.complex128, copy=True))
         return out
 
 
@@ -340,6 +369,14 @@ def table_checks(ctx, R, lay):
         text.append("enc %d %s" % (d, " ".join(str(int(k)) if k >= 0 else "4294967296" for k in keys)))
         expect.append("enc %d ok %d" % (d, len(clmo2[d])))
     nslots = sum(len(R.clmo[d]) for d in range(D + 1))
+    # the real _decode_multiindex on every slot of the lower degrees, compared with the model's decode
+    Ddec = min(D, 12 if ctx.thorough() else 9)
+    text.append("tables %d" % Ddec)
+    expect.append("tables %d %d" % (Ddec, sum(len(R.clmo[d]) for d in range(Ddec + 1))))
+    for d in range(Ddec + 1):
+        real_dec, _, _ = R.roundtrip_all(d, R.clmo, R.enc)
+        text.append("decall %d" % d)
+        expect.append("decall %d %s" % (d, " ".join(map(str, real_dec.ravel().tolist()))))
     # individual encode / decode / pack calls on the real njit functions, incl. inconsistent degree arguments
     rng = ctx.rng
     text.append("tables %d" % D if ctx.thorough() else "tables %d" % min(D, 14))
@@ -416,6 +453,21 @@ def table_checks(ctx, R, lay):
         elif len(np.unique(full, axis=0)) != want:
             problem = "two slots hold the same monomial (so some monomial of degree %d has no slot)" % d
         ctx.case(("table-bijection", d), nontrivial=True, kind="table-bijection")
+        if problem is None:
+            # the REAL decode / fill / encode functions on every slot (compiled loop)
+            real_dec, bad_enc, bad_fill = R.roundtrip_all(d, R.clmo, R.enc)
+            if not np.array_equal(real_dec, full):
+                i = int(np.flatnonzero((real_dec != full).any(axis=1))[0])
+                if (real_dec.sum(axis=1) != d).any() or (real_dec < 0).any() or len(np.unique(real_dec, axis=0)) != want:
+                    problem = "_decode_multiindex is not a bijection from the slots of degree %d onto its multi-indices (slot %d -> %s)" % (
+                        d, i, real_dec[i].tolist())
+                else:
+                    ctx.broken.append(("correspondence:index-tables", "_decode_multiindex differs from the 6-bit field layout at degree %d slot %d" % (d, i)))
+                    ctx.obligations["correspondence:index-tables"] = False
+            if problem is None and bad_enc >= 0:
+                problem = "_encode_multiindex(_decode_multiindex(%d)) != %d at degree %d" % (bad_enc, bad_enc, d)
+            if problem is None and bad_fill >= 0:
+                problem = "_fill_exponents differs from _decode_multiindex at degree %d slot %d" % (d, bad_fill)
         if problem is None and d <= (12 if not ctx.thorough() else 30):
             # encode(decode(i)) = i through the real njit functions for every slot (vectorised through the dumped dict)
             keys, cnt, bad = R.dump_dict(R.enc[d], len(arr))
@@ -447,7 +499,7 @@ def _rand_comp(rng, d):
 def run_driver(ctx, text):
     t = time.time()
     out = ctx.lean_run("Drivers/C06.lean", "\n".join(text) + "\n", timeout=3000)
-    tags = ("psi", "clmo", "enc", "tables", "pack", "encode", "decode", "add", "scale", "mul", "diff", "integ", "poisson",
+    tags = ("decall", "psi", "clmo", "enc", "tables", "pack", "encode", "decode", "add", "scale", "mul", "diff", "integ", "poisson",
             "eval", "gvar", "gadd", "gmul", "gpow", "gpoisson", "gdiff", "ginteg", "geval", "sublin", "subaff", "bad-op")
     res = [l.rstrip() for l in out if l.split(" ", 1)[0] in tags]
     ctx.log("driver: %d ops in %.1fs" % (len(text), time.time() - t))
